@@ -13,10 +13,12 @@ import (
 	"syscall"
 	"time"
 
+	"github.com/markusressel/fan2go/internal"
 	"github.com/markusressel/fan2go/internal/configuration"
 	"github.com/markusressel/fan2go/internal/fans"
 	"github.com/markusressel/fan2go/internal/sensors"
 	"github.com/markusressel/fan2go/internal/util"
+	"github.com/prometheus/client_golang/prometheus"
 	"github.com/spf13/viper"
 )
 
@@ -25,24 +27,26 @@ import (
 // CmdSensor / CmdFan / configuration.Validate; a marker file tells whether a
 // command was really started (and which file it was).
 type permOp struct {
-	K   string `json:"k"` // create chmod chown symlink remove exec validate
-	P   int    `json:"p"`
-	U   int    `json:"u,omitempty"`
-	G   int    `json:"g,omitempty"`
-	M   int    `json:"m,omitempty"`
-	T   int    `json:"t,omitempty"`   // symlink target
-	Api int    `json:"api,omitempty"` // 0 SafeCmdExecution 1 CmdSensor.GetValue 2 CmdFan.GetPwm 3 CmdFan.SetPwm 4 CmdFan.GetRpm
-	Cfg string `json:"cfg,omitempty"` // create: write this configuration variant instead of a script; validate: the loaded variant
+	K      string  `json:"k"` // create chmod chown symlink remove exec execduring validate
+	P      int     `json:"p"`
+	U      int     `json:"u,omitempty"`
+	G      int     `json:"g,omitempty"`
+	M      int     `json:"m,omitempty"`
+	T      int     `json:"t,omitempty"`   // symlink target
+	Api    int     `json:"api,omitempty"` // 0 SafeCmdExecution 1 CmdSensor.GetValue 2 CmdFan.GetPwm 3 CmdFan.SetPwm 4 CmdFan.GetRpm 5 initializeSensors (cmd sensor no curve uses)
+	Cfg    string  `json:"cfg,omitempty"` // create: write this configuration variant instead of a script; validate: the loaded variant
+	During *permOp `json:"during,omitempty"` // execduring: performed by a helper while the first started command is running
 }
 type permIn struct {
-	Ops []permOp `json:"ops"`
+	Failing []int    `json:"failing,omitempty"` // ids whose script exits 1 (after waiting for the helper, when one is armed)
+	Ops     []permOp `json:"ops"`
 }
 type permObs struct {
-	Stat   *[3]int `json:"stat"`
-	Ran    *int    `json:"ran"`
-	Res    int     `json:"res"`
-	Reason int     `json:"reason"`
-	Msg    string  `json:"msg,omitempty"`
+	Stat   *[3]int  `json:"stat"`
+	Starts [][4]int `json:"starts"` // id uid gid mode, one per start of a script inside the call (written by the script)
+	Res    int      `json:"res"`
+	Reason int      `json:"reason"`
+	Msg    string   `json:"msg,omitempty"`
 }
 
 // configuration variants and their class (early_err, fans_err, n_cmd_sensors, n_cmd_fans)
@@ -167,6 +171,27 @@ fans:
     file:
       path: /tmp/verif_pwm
 `, [4]int{1, 0, 2, 0}},
+	"cmdsensor_unused": {`
+sensors:
+  - id: s1
+    file:
+      path: /tmp/verif_temp
+  - id: leftover
+    cmd:
+      exec: /bin/sh
+      args: ["-c", "echo 42"]
+curves:
+  - id: c1
+    linear:
+      sensor: s1
+      min: 40
+      max: 80
+fans:
+  - id: f1
+    curve: c1
+    file:
+      path: /tmp/verif_pwm
+`, [4]int{0, 0, 1, 0}},
 	"nocmd_fanserr": {`
 sensors:
   - id: s1
@@ -264,6 +289,20 @@ func permResolveStat(path string) *[3]int {
 func permCallApi(api int, path string) error {
 	timeout := 2 * time.Second
 	switch api {
+	case 5:
+		// the real start-up glue (backend.go initializeSensors) on a configuration whose only cmd sensor is used by
+		// no curve: it is created and read like every other sensor
+		permCfgMu.Lock()
+		defer permCfgMu.Unlock()
+		prometheus.DefaultRegisterer = prometheus.NewRegistry()
+		configuration.CurrentConfig = configuration.Configuration{
+			Sensors: []configuration.SensorConfig{
+				{ID: "used", File: &configuration.FileSensorConfig{Path: filepath.Join(filepath.Dir(path), "no_such_temp_input")}},
+				{ID: "unused", Cmd: &configuration.CmdSensorConfig{Exec: path}},
+			},
+			Curves: []configuration.CurveConfig{{ID: "c1", Linear: &configuration.LinearCurveConfig{Sensor: "used", Min: 40, Max: 80}}},
+		}
+		return internal.VerifInitializeSensors(nil)
 	case 0:
 		_, err := util.SafeCmdExecution(path, []string{}, timeout)
 		return err
@@ -290,6 +329,28 @@ func permCallApi(api int, path string) error {
 	}
 }
 
+func permReadStarts(marker string) [][4]int {
+	res := [][4]int{}
+	data, err := os.ReadFile(marker)
+	if err != nil {
+		return res
+	}
+	for _, line := range strings.Split(string(data), "\n") {
+		f := strings.Fields(line)
+		if len(f) != 4 {
+			continue
+		}
+		id, e1 := strconv.Atoi(f[0])
+		u, e2 := strconv.Atoi(f[1])
+		g, e3 := strconv.Atoi(f[2])
+		m, e4 := strconv.ParseInt(f[3], 8, 32)
+		if e1 == nil && e2 == nil && e3 == nil && e4 == nil {
+			res = append(res, [4]int{id, u, g, int(m)})
+		}
+	}
+	return res
+}
+
 func runPerm(workDir string, n int, in permIn) ([]permObs, string) {
 	dir := filepath.Join(workDir, "c"+itoa(n))
 	os.RemoveAll(dir)
@@ -299,19 +360,36 @@ func runPerm(workDir string, n int, in permIn) ([]permObs, string) {
 	defer os.RemoveAll(dir)
 	pathOf := func(id int) string { return filepath.Join(dir, "f"+itoa(id)) }
 	marker := filepath.Join(dir, "marker")
+	armFile, flagFile := filepath.Join(dir, "arm"), filepath.Join(dir, "flag")
 	must := func(err error) {
 		if err != nil {
 			panic(fmt.Sprintf("perm driver: file-system operation failed (is the harness running as root?): %v", err))
 		}
 	}
-	var obs []permObs
-	var coqOps []string
-	for _, op := range in.Ops {
+	failing := map[int]bool{}
+	for _, id := range in.Failing {
+		failing[id] = true
+	}
+	// every script first records its own start: its id and what stat(2) says about its own path right now
+	script := func(id int) string {
+		s := "#!/bin/sh\necho \"" + itoa(id) + " $(stat -L -c '%u %g %a' \"$0\")\" >> " + marker + "\n"
+		// when a helper is armed the command keeps running until the helper has acted
+		s += "if [ -e " + armFile + " ]; then n=0; while [ ! -e " + flagFile + " ] && [ $n -lt 100 ]; do sleep 0.01; n=$((n+1)); done; fi\n"
+		if failing[id] {
+			s += "exit 1\n"
+		} else {
+			s += "echo 42\n"
+		}
+		return s
+	}
+	// file-system operations (also used by the helper of execduring); returns the Coq term
+	var applyFs func(op permOp) string
+	applyFs = func(op permOp) string {
 		p := pathOf(op.P)
 		switch op.K {
 		case "create":
 			os.Remove(p)
-			content := "#!/bin/sh\necho " + itoa(op.P) + " >> " + marker + "\necho 42\n"
+			content := script(op.P)
 			if op.Cfg != "" {
 				content = permCfgVariants[op.Cfg].yaml
 			}
@@ -321,27 +399,81 @@ func runPerm(workDir string, n int, in permIn) ([]permObs, string) {
 			must(werr)
 			must(os.Chown(p, op.U, op.G))
 			must(syscall.Chmod(p, uint32(op.M)))
-			coqOps = append(coqOps, cRec("OpCreate", cZ(op.P), cZ(op.U), cZ(op.G), cZ(op.M)))
+			return cRec("OpCreate", cZ(op.P), cZ(op.U), cZ(op.G), cZ(op.M))
 		case "chmod":
 			_ = syscall.Chmod(p, uint32(op.M))
-			coqOps = append(coqOps, cRec("OpChmod", cZ(op.P), cZ(op.M)))
+			return cRec("OpChmod", cZ(op.P), cZ(op.M))
 		case "chown":
 			_ = os.Chown(p, op.U, op.G)
-			coqOps = append(coqOps, cRec("OpChown", cZ(op.P), cZ(op.U), cZ(op.G)))
+			return cRec("OpChown", cZ(op.P), cZ(op.U), cZ(op.G))
 		case "symlink":
 			os.Remove(p)
 			must(os.Symlink(pathOf(op.T), p))
-			coqOps = append(coqOps, cRec("OpSymlink", cZ(op.P), cZ(op.T)))
+			return cRec("OpSymlink", cZ(op.P), cZ(op.T))
 		case "remove":
 			_ = os.Remove(p)
-			coqOps = append(coqOps, cRec("OpRemove", cZ(op.P)))
-		case "exec":
+			return cRec("OpRemove", cZ(op.P))
+		}
+		panic("perm driver: not a file-system operation: " + op.K)
+	}
+	coqFs := func(op permOp) string { // the term without performing the operation
+		switch op.K {
+		case "create":
+			return cRec("OpCreate", cZ(op.P), cZ(op.U), cZ(op.G), cZ(op.M))
+		case "chmod":
+			return cRec("OpChmod", cZ(op.P), cZ(op.M))
+		case "chown":
+			return cRec("OpChown", cZ(op.P), cZ(op.U), cZ(op.G))
+		case "symlink":
+			return cRec("OpSymlink", cZ(op.P), cZ(op.T))
+		case "remove":
+			return cRec("OpRemove", cZ(op.P))
+		}
+		panic("perm driver: not a file-system operation: " + op.K)
+	}
+	var obs []permObs
+	var coqOps []string
+	for _, op := range in.Ops {
+		p := pathOf(op.P)
+		switch op.K {
+		case "exec", "execduring":
 			os.Remove(marker)
 			o := permObs{Stat: permResolveStat(p)}
+			stop := make(chan struct{})
+			helperDone := make(chan struct{})
+			if op.K == "execduring" {
+				if op.During == nil || op.During.K == "create" {
+					panic("perm driver: execduring needs a chmod/chown/symlink/remove operation")
+				}
+				must(os.WriteFile(armFile, nil, 0o644))
+				go func() {
+					// another process: as soon as the first start is on record, change the tree, then let the command end
+					defer close(helperDone)
+					for {
+						select {
+						case <-stop:
+							return
+						default:
+						}
+						if len(permReadStarts(marker)) > 0 {
+							applyFs(*op.During)
+							_ = os.WriteFile(flagFile, nil, 0o644)
+							return
+						}
+						time.Sleep(2 * time.Millisecond)
+					}
+				}()
+			} else {
+				close(helperDone)
+			}
 			var err error
 			permFsMu.RLock()
 			pn := catch(func() { err = permCallApi(op.Api, p) })
 			permFsMu.RUnlock()
+			close(stop)
+			<-helperDone
+			os.Remove(armFile)
+			os.Remove(flagFile)
 			if pn != "" {
 				o.Res = 2
 				o.Msg = pn
@@ -350,18 +482,15 @@ func runPerm(workDir string, n int, in permIn) ([]permObs, string) {
 				o.Msg = err.Error()
 				o.Reason = permReason(o.Msg, false)
 			}
-			if data, e := os.ReadFile(marker); e == nil {
-				f := strings.Fields(string(data))
-				if len(f) > 0 {
-					if id, e2 := strconv.Atoi(f[0]); e2 == nil {
-						o.Ran = &id
-					}
-				}
-			}
+			o.Starts = permReadStarts(marker)
 			obs = append(obs, o)
-			coqOps = append(coqOps, cRec("OpExec", cZ(op.Api), cZ(op.P)))
+			if op.K == "execduring" {
+				coqOps = append(coqOps, cRec("OpExecDuring", cZ(op.Api), cZ(op.P), coqFs(*op.During)))
+			} else {
+				coqOps = append(coqOps, cRec("OpExec", cZ(op.Api), cZ(op.P)))
+			}
 		case "validate":
-			o := permObs{Stat: permResolveStat(p)}
+			o := permObs{Stat: permResolveStat(p), Starts: [][4]int{}}
 			var err error
 			permCfgMu.Lock()
 			cfg := permLoadVariant(workDir, op.Cfg)
@@ -378,6 +507,8 @@ func runPerm(workDir string, n int, in permIn) ([]permObs, string) {
 			obs = append(obs, o)
 			cl := permCfgVariants[op.Cfg].class
 			coqOps = append(coqOps, cRec("OpValidate", cRec("mkCfg", cBool(cl[0] != 0), cBool(cl[1] != 0), cZ(cl[2]), cZ(cl[3])), cZ(op.P)))
+		default:
+			coqOps = append(coqOps, applyFs(op))
 		}
 	}
 	coqObs := make([]string, len(obs))
@@ -386,9 +517,13 @@ func runPerm(workDir string, n int, in permIn) ([]permObs, string) {
 		if o.Stat != nil {
 			st = "(Some (" + cZ(o.Stat[0]) + ", " + cZ(o.Stat[1]) + ", " + cZ(o.Stat[2]) + "))"
 		}
-		coqObs[i] = cRec("mkObs", st, cOptZ(o.Ran), cZ(o.Res), cZ(o.Reason))
+		starts := make([]string, len(o.Starts))
+		for j, x := range o.Starts {
+			starts[j] = "(" + cZ(x[0]) + ", (" + cZ(x[1]) + ", " + cZ(x[2]) + ", " + cZ(x[3]) + "))"
+		}
+		coqObs[i] = cRec("mkObs", st, cList(starts), cZ(o.Res), cZ(o.Reason))
 	}
-	return obs, cRec("mkCase", cList(coqOps), cList(coqObs))
+	return obs, cRec("mkCase", cZList(in.Failing), cList(coqOps), cList(coqObs))
 }
 
 type permJob struct {
@@ -403,7 +538,10 @@ func init() {
 		}
 		var jobs []permJob
 		add := func(tags []string, ops ...permOp) {
-			jobs = append(jobs, permJob{permIn{ops}, tags})
+			jobs = append(jobs, permJob{permIn{Ops: ops}, tags})
+		}
+		addFailing := func(tags []string, failing []int, ops ...permOp) {
+			jobs = append(jobs, permJob{permIn{Failing: failing, Ops: ops}, tags})
 		}
 		for _, raw := range append(ctx.Corpus, ctx.Replay...) {
 			var in permIn
@@ -444,7 +582,7 @@ func init() {
 				}
 			}
 			// (b) CmdSensor / CmdFan paths on the interesting modes
-			for api := 1; api <= 4; api++ {
+			for api := 1; api <= 5; api++ {
 				for _, via := range []bool{false, true} {
 					for _, u := range ids {
 						for _, g := range ids {
@@ -473,7 +611,7 @@ func init() {
 					}
 				}
 			}
-			for _, v := range []string{"cmdfan", "cmdboth", "nocmd", "cmd_fanserr", "cmd_early", "nocmd_fanserr"} {
+			for _, v := range []string{"cmdfan", "cmdboth", "nocmd", "cmd_fanserr", "cmd_early", "nocmd_fanserr", "cmdsensor_unused"} {
 				for _, via := range []bool{false, true} {
 					for _, u := range ids {
 						for _, g := range ids {
@@ -518,6 +656,53 @@ func init() {
 					add([]string{"chain", "chain=" + itoa(n)}, ops2...)
 				}
 			}
+			// (d2) the tree changes WHILE the started command is running and the command then fails: one check and at
+			// most one start per call; a later call sees the new state
+			during := func(api, p int, d permOp) permOp { return permOp{K: "execduring", P: p, Api: api, During: &d} }
+			for api := 0; api <= 5; api++ {
+				for _, via := range []bool{false, true} {
+					target := 1
+					pre := []permOp{}
+					if via {
+						target = 3
+						pre = []permOp{link(3, 1)}
+					}
+					type dcase struct {
+						g0, m0 int
+						d      permOp
+						tag    string
+					}
+					for _, dc := range []dcase{
+						{0, 0o755, permOp{K: "chown", P: target, U: 4242, G: 0}, "chown-user"},
+						{4242, 0o755, permOp{K: "chmod", P: target, M: 0o775}, "chmod-g+w"},
+						{0, 0o755, permOp{K: "chmod", P: target, M: 0o757}, "chmod-o+w"},
+						{0, 0o755, permOp{K: "chown", P: target, U: 0, G: 4242}, "chown-group-harmless"},
+						{0, 0o755, permOp{K: "chmod", P: target, M: 0o700}, "chmod-harmless"},
+						{0, 0o755, permOp{K: "remove", P: 1}, "remove"},
+					} {
+						for _, fail := range []bool{true, false} {
+							var failing []int
+							if fail {
+								failing = []int{1, 2}
+							}
+							ops := append([]permOp{create(1, 0, dc.g0, dc.m0)}, pre...)
+							ops = append(ops, during(api, target, dc.d), exec(api, target))
+							addFailing([]string{"during", "during=" + dc.tag, "api=" + itoa(api)}, failing, ops...)
+						}
+					}
+					if via {
+						// the link is retargeted to a file of another user while the command runs
+						for _, fail := range []bool{true, false} {
+							var failing []int
+							if fail {
+								failing = []int{1, 2}
+							}
+							addFailing([]string{"during", "during=retarget", "api=" + itoa(api)}, failing,
+								create(1, 0, 0, 0o755), create(2, 4242, 4242, 0o755), link(3, 1), during(api, 3, link(3, 2)), exec(api, 3))
+						}
+					}
+				}
+			}
 			// (e) ownership / mode / link target changed between consecutive calls
 			nFlip := ctx.Param("flips", 400)
 			if !ctx.Quick() {
@@ -531,18 +716,38 @@ func init() {
 			}
 			for i := 0; i < nFlip; i++ {
 				isCfg := rng.Chance(1, 4)
-				variant := []string{"cmdsensor", "cmdfan", "cmdboth", "nocmd", "cmd_fanserr"}[rng.Intn(5)]
+				variant := []string{"cmdsensor", "cmdfan", "cmdboth", "nocmd", "cmd_fanserr", "cmdsensor_unused"}[rng.Intn(6)]
 				mk := func(p, u, g, m int) permOp {
 					if isCfg {
 						return createCfg(p, u, g, m, variant)
 					}
 					return create(p, u, g, m)
 				}
+				var failing []int
+				if !isCfg {
+					for _, id := range []int{1, 2} {
+						if rng.Chance(1, 3) {
+							failing = append(failing, id)
+						}
+					}
+				}
 				call := func(p int) permOp {
 					if isCfg {
 						return validate(variant, p)
 					}
-					return exec(rng.Intn(5), p)
+					if rng.Chance(1, 5) {
+						var d permOp
+						switch rng.Intn(3) {
+						case 0:
+							d = permOp{K: "chmod", P: []int{1, 2, 3}[rng.Intn(3)], M: pickMode()}
+						case 1:
+							d = permOp{K: "chown", P: []int{1, 2, 3}[rng.Intn(3)], U: rng.Pick(ids), G: rng.Pick(ids)}
+						default:
+							d = link(3, 1+rng.Intn(2))
+						}
+						return during(rng.Intn(6), p, d)
+					}
+					return exec(rng.Intn(6), p)
 				}
 				// two files (often one good, one bad) and a link that may be retargeted
 				ops := []permOp{mk(1, rng.Pick(ids), rng.Pick(ids), pickMode()), mk(2, rng.Pick(ids), rng.Pick(ids), pickMode()), link(3, 1+rng.Intn(2))}
@@ -567,7 +772,7 @@ func init() {
 					}
 					ops = append(ops, call(target))
 				}
-				add([]string{"flip"}, ops...)
+				addFailing([]string{"flip"}, failing, ops...)
 			}
 		}
 		// run (exec cases in parallel, each in its own directory), emit in order
@@ -599,7 +804,7 @@ func init() {
 				switch {
 				case o.Res == 2:
 					tags = append(tags, "out=panic")
-				case o.Ran != nil:
+				case len(o.Starts) > 0:
 					tags = append(tags, "out=ran")
 				case o.Res == 0:
 					tags = append(tags, "out=accepted")
